@@ -353,6 +353,22 @@ def run_sim(config, seed, **kw):
                              "maxHft": s.max_high_frequency_orders,
                              "rate": s.high_frequency_submission_rate,
                              "start": s.session_start_time, "id": s.session_id} for s in self.simulator.sessions]
+        # the session rules are the *configured* ones: where the configuration states a parameter, the model and
+        # the monitors use that value, and a session object that parsed it differently is reported
+        run.session_parse_mismatch = []
+        keymap = {"iterationSteps": "steps", "withOrderPlacement": "placement", "withOrderExecution": "execution",
+                  "maxNormalOrders": "maxNormal", "maxHighFrequencyOrders": "maxHft", "highFrequencySubmitRate": "rate"}
+        start = 0
+        for k, (sc, parsed) in enumerate(zip(config["simulation"]["sessions"], run.session_cfgs)):
+            if not isinstance(sc, dict) or "extends" in sc:
+                continue
+            for key, name in keymap.items():
+                if key in sc and sc[key] is not None and parsed[name] != sc[key]:
+                    run.session_parse_mismatch.append({"session": k, "key": key, "configured": sc[key], "parsed": parsed[name]})
+                    parsed[name] = sc[key]
+            if parsed["start"] != start:
+                run.session_parse_mismatch.append({"session": k, "key": "start", "configured": start, "parsed": parsed["start"]})
+            start += sc.get("iterationSteps", parsed["steps"])
     seq.SequentialRunner._setup = patched_setup
     try:
         run.run()
